@@ -104,6 +104,10 @@ func runC18(c *Ctx) {
 				tgStress(c, rp0.Seed)
 			case "threadgroup-race":
 				tgRace(c, rp0.Seed)
+			case "aborts":
+				abortScenario(c, rp0.Seed, rp0.Variant)
+			case "same-address":
+				sameAddress(c, rp0.Seed, rp0.Variant)
 			case "close-while-connecting":
 				closeWhileConnecting(c, rp0.Seed, rp0.Variant)
 			case "rhp4-shutdown":
@@ -136,9 +140,7 @@ func runC18(c *Ctx) {
 			cfg.MaxRPC = 64 // the default; costs a few hundred requests per scenario
 		}
 		seed := c.R.U64()
-		if rng.New(seed).Intn(5) == 0 {
-			cfg.V4Bits = 32
-		}
+		cfg.V4Bits = []int{24, 24, 32, 16, 0}[rng.New(seed).Intn(5)] // /0 and /16: all peers share one subnet
 		cs, _ := phasedScenario(c, seed, cfg, i%3+3*((i/3)%4))
 		cases = append(cases, cs...)
 	}
@@ -146,11 +148,11 @@ func runC18(c *Ctx) {
 
 	t1 := time.Now()
 	nCaps := c.Scale(60, 600)
-	for m := 1; m <= 3; m++ { // corpus: the minimal F12 witness for each cap
+	for m := 0; m <= 4; m++ { // corpus: the minimal F12 witness for each cap (0: nobody gets in)
 		cases = append(cases, capsInbound(c, uint64(m), bedConfig{MaxSubnet: 64, MaxRPC: 4, MaxIn: m, MaxOut: 16, V4Bits: 24}, -1)...)
 	}
 	for i := 0; i < nCaps && !giveUp("caps-inbound"); i++ {
-		cfg := bedConfig{MaxSubnet: 64, MaxRPC: 4, MaxIn: 1 + i%3, MaxOut: 16, V4Bits: 24}
+		cfg := bedConfig{MaxSubnet: 64, MaxRPC: 4, MaxIn: []int{1, 2, 3, 1, 2, 3, 0, 4, -1}[i%9], MaxOut: 16, V4Bits: 24}
 		cases = append(cases, capsInbound(c, c.R.U64(), cfg, i)...)
 	}
 	for i := 0; i < c.Scale(6, 40) && !giveUp("caps-outbound"); i++ {
@@ -169,6 +171,15 @@ func runC18(c *Ctx) {
 		stressRun(c, c.R.U64(), cfg, i)
 	}
 	res.Notes = append(res.Notes, fmt.Sprintf("stress: %d runs in %.1fs", nStress, time.Since(t2).Seconds()))
+
+	ta := time.Now()
+	for i := 0; i < c.Scale(12, 120) && !giveUp("aborts"); i++ {
+		abortScenario(c, c.R.U64(), i)
+	}
+	for i := 0; i < c.Scale(8, 80) && !giveUp("same-address"); i++ {
+		sameAddress(c, c.R.U64(), i)
+	}
+	res.Notes = append(res.Notes, fmt.Sprintf("aborts and same-address reconnects: %.1fs", time.Since(ta).Seconds()))
 
 	tc := time.Now()
 	for i := 0; i < c.Scale(32, 320) && !giveUp("close-while-connecting") && failedRuns["threadgroup"] == 0; i++ {
@@ -210,6 +221,7 @@ func phasedScenario(c *Ctx, seed uint64, cfg bedConfig, fullVariant int) (cases 
 	}
 	defer sc.cleanup()
 	L := cfg.MaxRPC
+	sc.endingRate = []int{0, 6, 3}[r.Intn(3)] // some handlers end in an error, a panic, or with the client gone
 
 	n := 1 + r.Intn(4)
 	if L > 8 {
@@ -224,7 +236,16 @@ func phasedScenario(c *Ctx, seed uint64, cfg bedConfig, fullVariant int) (cases 
 		}
 		specs = append(specs, [2]int{sub, host})
 	}
+	// some of the peers are ones the syncer dialled itself: the RPC limits apply to them all the same
+	var outSpecs [][2]int
+	if len(specs) > 1 && r.Intn(3) == 0 {
+		k := 1 + r.Intn(len(specs)-1)
+		outSpecs, specs = specs[:k], specs[k:]
+	}
 	sc.connectBatch(specs)
+	for _, sp := range outSpecs {
+		sc.connectOutbound(sp[0], sp[1])
+	}
 
 	burstCounts := func(big bool) map[int]int {
 		m := map[int]int{}
@@ -343,6 +364,16 @@ func phasedScenario(c *Ctx, seed uint64, cfg bedConfig, fullVariant int) (cases 
 	c.Res.Eval(canon, nontrivial)
 	c.Res.Count(fmt.Sprintf("phased:subnet-limit=%d", cfg.MaxSubnet))
 	c.Res.Count(fmt.Sprintf("phased:peer-limit=%d", cfg.MaxRPC))
+	c.Res.Count(fmt.Sprintf("phased:ipv4-prefix=/%d", cfg.V4Bits))
+	c.Res.CountN("phased:outbound-peers", sc.notes["outbound"])
+	for e := range endingName {
+		c.Res.CountN("phased:handler-ending="+endingName[e], sc.notes["ending:"+endingName[e]])
+	}
+	if variant == 0 {
+		c.Res.Count("phased:probe-exactly-at-limit")
+	} else {
+		c.Res.Count("phased:probe-above-limit")
+	}
 	c.Res.CountN("phased:requests", len(sc.tb.rpcs))
 	c.Res.CountN("phased:dropped", sc.notes["dropped"])
 	c.Res.CountN("phased:labels", len(sc.trace))
